@@ -7,6 +7,11 @@
 // Input (S-expression):  (hooks reqs nTasks)
 //
 //	hook := (id call|task crit trigName trigW awaitName awaitW (o0 o1 …))     oK=1 ⇒ K-th execution fails
+//	      | (id call|task crit trigName trigW awaitName awaitW (o0 o1 …) timeoutMs durMs)
+//	        timeoutMs > 0: the call hook's own `timeout` trait in ms (default 5s; task hooks always 5s);
+//	        durMs > 0: the probe takes that many ms (default 0.3 ms). Neither has any effect in the model:
+//	        the core does not abort a call at its timeout and collects its result at the await point whenever
+//	        the call finishes (docs/handbook/configuration.md, callable/call.go).
 //	req  := (T ev bodyOk rnFail) | (C ev bodyOk rnFail) | (D force relOk1 relOk2)
 //
 // Trace (S-expression list), in global sequence order:
@@ -17,6 +22,9 @@
 //	(B ev)                         the scripted task-level body ran
 //	(RE transition status rn ts)   Ev_RunEvent published (ts = timestamp it was published with)
 //	(R result state rn vars pending gone)   the request returned
+//	(Q n)                          end of the case, after every probe call has returned: n goroutines of
+//	                               callable.(*Call).Start hold a result that was neither collected (Await) nor
+//	                               cancelled (teardown) — counted before the harness's own clean-up teardown
 package envh
 
 import (
@@ -94,6 +102,8 @@ type hookDef struct {
 	aw       int
 	outcomes []bool
 	execs    int32
+	timeout  int // ms, 0 = default
+	dur      int // ms the probe takes, 0 = default
 }
 
 type caseState struct {
@@ -241,7 +251,11 @@ func (p *probePlugin) CallStack(data interface{}) map[string]interface{} {
 			fails := k < len(h.outcomes) && h.outcomes[k]
 			st := cs.env.Sm.Current()
 			// take a little time, so that a transition that failed to wait for this call would be seen moving on
-			time.Sleep(300 * time.Microsecond)
+			if h.dur > 0 {
+				time.Sleep(time.Duration(h.dur) * time.Millisecond)
+			} else {
+				time.Sleep(300 * time.Microsecond)
+			}
 			if fails {
 				call.VarStack["__call_error"] = fmt.Sprintf("probe %d failed", h.id)
 			}
@@ -338,7 +352,11 @@ func buildYAML(hooks []*hookDef, nTasks int) string {
 		if h.isTask {
 			b.WriteString("      load: cls\n      timeout: 5s\n")
 		} else {
-			b.WriteString("      func: verifprobe.Probe()\n      timeout: 5s\n")
+			if h.timeout > 0 {
+				fmt.Fprintf(&b, "      func: verifprobe.Probe()\n      timeout: %dms\n", h.timeout)
+			} else {
+				b.WriteString("      func: verifprobe.Probe()\n      timeout: 5s\n")
+			}
 		}
 		fmt.Fprintf(&b, "      trigger: %s%+d\n      await: %s%+d\n      critical: %v\n", h.trig, h.tw, h.await, h.aw, h.crit)
 	}
@@ -358,6 +376,9 @@ func parseHooks(n *sx.Node) []*hookDef {
 			trig: h.At(3).Str(), tw: h.At(4).Int(), await: h.At(5).Str(), aw: h.At(6).Int()}
 		for _, o := range h.At(7).List {
 			d.outcomes = append(d.outcomes, o.Bool())
+		}
+		if h.Len() >= 10 {
+			d.timeout, d.dur = h.At(8).Int(), h.At(9).Int()
 		}
 		out = append(out, d)
 	}
@@ -451,6 +472,8 @@ func Run(input string, paced bool) (string, error) {
 	hooks := parseHooks(in.At(0))
 	nTasks := in.At(2).Int()
 	cs := &caseState{hooks: map[string]*hookDef{}, byTask: map[string]*hookDef{}, pace: paced}
+	// results held by call goroutines of earlier cases (none on a healthy tree)
+	_, parked0 := callGoroutines()
 
 	os.Remove(filepath.Join(workDir, "runcounter.txt"))
 	envSeq++
@@ -701,6 +724,8 @@ func Run(input string, paced bool) (string, error) {
 	if err := waitCallsQuiescent(); err != nil {
 		return "", err
 	}
+	_, parked := callGoroutines()
+	rec.add(sx.L(sx.A("Q"), sx.I(max(parked-parked0, 0))))
 	tr := sx.L()
 	tr.List = rec.take()
 	if !gone {
@@ -726,25 +751,35 @@ func syncEnvmanLoop() {
 	}
 }
 
+// callGoroutines looks at the goroutines spawned by callable.(*Call).Start: busy = some of them are not
+// parked in their select (inside the call, or runnable); parked = how many sit in the select, i.e. hold the
+// result of a finished call that has been neither collected (Await) nor cancelled.
+var stackBuf = make([]byte, 4<<20) // only the goroutine running the case uses it
+
+func callGoroutines() (busy bool, parked int) {
+	buf := stackBuf
+	n := runtime.Stack(buf, true)
+	for _, g := range strings.Split(string(buf[:n]), "\n\n") {
+		if !strings.Contains(g, "callable.(*Call).Start.func1") {
+			continue
+		}
+		head := g
+		if i := strings.IndexByte(g, '\n'); i >= 0 {
+			head = g[:i]
+		}
+		if strings.Contains(head, "[select") {
+			parked++
+		} else {
+			busy = true
+		}
+	}
+	return
+}
+
 func waitCallsQuiescent() error {
 	deadline := time.Now().Add(30 * time.Second)
-	buf := make([]byte, 4<<20)
 	for {
-		n := runtime.Stack(buf, true)
-		busy := false
-		for _, g := range strings.Split(string(buf[:n]), "\n\n") {
-			if !strings.Contains(g, "callable.(*Call).Start.func1") {
-				continue
-			}
-			head := g
-			if i := strings.IndexByte(g, '\n'); i >= 0 {
-				head = g[:i]
-			}
-			if !strings.Contains(head, "[select") {
-				busy = true
-				break
-			}
-		}
+		busy, _ := callGoroutines()
 		if !busy {
 			return nil
 		}
